@@ -199,6 +199,25 @@ def register(reg):
         out.append(("check_host_trust-body", src == "return host_is_trusted(environ.get('HTTP_HOST'), self.trusted_hosts)", src))
         return out
 
+    # ---- check_host_trust: the body (second contract on the same function): the verdict is host_is_trusted's verdict on
+    # the Host header and the configured list -- stated with host_is_trusted's own postconditions, so that a body that
+    # consults anything else (SERVER_NAME, X-Forwarded-Host, another list) does not verify
+    AppH = reg.model("DebuggedApplicationHost", cls="werkzeug/debug/__init__.py:DebuggedApplication",
+                     fields={"trusted_hosts": "List[str]"})
+    reg.contract(
+        "werkzeug/debug/__init__.py:DebuggedApplication.check_host_trust#verify", prop=P, self_model=AppH,
+        # the environ is an arbitrary str -> str map: every other key (SERVER_NAME, HTTP_X_FORWARDED_HOST, ...) is there to be misused
+        params={"environ": "Dict[str, str]"}, returns="bool", modifies=[],
+        ensures=[
+            "implies(result, environ.get('HTTP_HOST') is not None and len(environ.get('HTTP_HOST')) > 0 and "
+            "        exists(0, len(self.trusted_hosts), lambda j: M(environ.get('HTTP_HOST'), self.trusted_hosts, j)))",
+            "implies(not result and environ.get('HTTP_HOST') is not None and len(environ.get('HTTP_HOST')) > 0 and "
+            "        idna_ok(hp(environ.get('HTTP_HOST'))) and forall(0, len(self.trusted_hosts), lambda j: OK(self.trusted_hosts, j)), "
+            "        forall(0, len(self.trusted_hosts), lambda j: not M(environ.get('HTTP_HOST'), self.trusted_hosts, j)))",
+        ],
+        raises={},
+    )
+
     # ---- check_pin_trust: the cookie verification itself (second contract on the same function) -----------
     from pyvc.values import VBuiltin as _VB2, VDict as _VD2
 
